@@ -30,7 +30,7 @@ rundemo() { # $1 = label
   rm -f "$WT/$pkgdir/zz_seed_demo_test.go"
 }
 demo_without="$(rundemo without)"
-if ! git -C "$WT" apply "$SRC/patch.diff"; then echo "SEED $TAG patch-does-not-apply"; exit 8; fi
+if ! git -C "$WT" apply "$SRC/patch.diff" 2>/dev/null && ! (cd "$WT" && patch -s -p1 < "$SRC/patch.diff"); then echo "SEED $TAG patch-does-not-apply"; exit 8; fi
 demo_with="$(rundemo with)"
 if VERIF_REPO="$WT" /verif/scripts/baseline.sh >"$OUT/baseline.log" 2>&1; then base=pass; else base=FAIL; fi
 VERIF_REPO="$WT" VERIF_OUT="$OUT" /verif/check "$ID" "$TIER" >"$OUT/check.log" 2>&1
